@@ -296,6 +296,19 @@ def replay(script, zclass, relativize, tid):
                     rec["val"] = ["rds", int(got.ttl), sorted(rd_id(e["type"], rd) for rd in got)]
             else:
                 rec["val"] = ["-"]
+        elif op == "getnode":
+            name = spell(e["name"], e["sp"])
+            res, exc, got = call(lambda: txn.get_node(name))
+            if res == "ok":
+                rec["val"] = ["none"] if got is None else ["node", sorted(type_text(r) for r in got.rdatasets)]
+            else:
+                rec["val"] = ["-"]
+        elif op == "names":
+            res, exc, got = call(lambda: sorted(name_text(n, relativize) for n in txn.iterate_names()))
+            rec["val"] = ["names", got] if res == "ok" else ["-"]
+        elif op == "changed":
+            res, exc, got = call(txn.changed)
+            rec["val"] = ["bool", bool(got)] if res == "ok" else ["-"]
         elif op == "exists":
             name = spell(e["name"], e["sp"])
             res, exc, got = call(lambda: txn.name_exists(name))
